@@ -8,7 +8,8 @@
     faults <k>:c:<cc>|<k>:s:<n> …  (or -)   install a fault plan on the CURRENT device, request counter := 0  -> ok
                                             (request k answers <cc> unprocessed / write k stores only n bytes)
     snap                                    INITIAL := CURRENT (histories: the model runs one step from here)  -> ok
-    run <shipped 0|1> <op> …     model on the INITIAL device -> <outcome> | <trace> | <contents>
+    run <flags 0..3> <op> …      model on the INITIAL device -> <outcome> | <trace> | <contents>
+        flags: bit 0 = get_fru_multirecord_area as shipped, bit 1 = _read_fru_area rejects area length 0
         read <id> <off|n> <cnt>      read_fru_data           outcome  ok <hex>
         full <id>                    read_fru_data_full
         write <id> <off> <hex>       write_fru_data          outcome  ok -
@@ -77,7 +78,7 @@ def finish {α} (r : Res FaultyDev α) (f : α → String) : String :=
 
 def cfg : Cfg := PyIpmi.Gen.Loops10.fruCfg
 
-def runOp (d : FaultyDev) (shipped : Bool) (op : List String) : String :=
+def runOp (d : FaultyDev) (shipped lenChk : Bool) (op : List String) : String :=
   let respond := respondF
   let w : World FaultyDev := ⟨d, []⟩
   match op with
@@ -102,7 +103,7 @@ def runOp (d : FaultyDev) (shipped : Bool) (op : List String) : String :=
     let ar : Option Area := if a == "c" then some .chassis else if a == "b" then some .board
       else if a == "p" then some .product else none
     match id.toNat?, ar with
-    | some id, some ar => finish (getInfoArea cfg respond w ar id) toHex
+    | some id, some ar => finish (getInfoArea cfg respond lenChk w ar id) toHex
     | _, _ => "bad-op"
   | ["mr", id] =>
     match id.toNat? with
@@ -110,7 +111,7 @@ def runOp (d : FaultyDev) (shipped : Bool) (op : List String) : String :=
     | _ => "bad-op"
   | ["inv", id] =>
     match id.toNat? with
-    | some id => finish (getInventory cfg respond shipped w id) fun i =>
+    | some id => finish (getInventory cfg respond shipped lenChk w id) fun i =>
         " ".intercalate [showOptBytes i.chassis, showOptBytes i.board, showOptBytes i.product, showOptBytes i.multi]
     | _ => "bad-op"
   | _ => "bad-op"
@@ -138,8 +139,9 @@ def handle (s : St) (line : String) : St × String :=
     | some l => ({ s with cur := { s.cur with seen := 0, faults := l } }, "ok")
     | none => (s, "bad-op")
   | "run" :: sh :: op =>
+    -- flags: bit 0 = get_fru_multirecord_area as shipped, bit 1 = _read_fru_area checks the area length
     match sh.toNat? with
-    | some v => (s, runOp s.init (v != 0) op)
+    | some v => (s, runOp s.init (v % 2 != 0) (v / 2 % 2 != 0) op)
     | none => (s, "bad-op")
   | _ => (s, "bad-op")
 
